@@ -749,6 +749,8 @@ def tpcn_modes(tier):
     # large degrees of freedom (DOF_FALLBACK = 1e6 is what the library uses when a fit finds no heavy tail); det(S) <= 4 keeps
     # 225 (nu det + Qf) below 2^31
     m += [dict(d=1, nu=102, m=(4,), L=((2,),)), dict(d=1, nu=10 ** 6, m=(3,), L=((1,),)), dict(d=2, nu=400, m=(4, 4), L=((1, 0), (1, 1)))]
+    # a mode whose centre lies OUTSIDE the unit cube (a legal hand-built statistic for a target cut by a wall; the lattice has 2M = 8 cells)
+    m += [dict(d=1, nu=3, m=(-1,), L=((2,),)), dict(d=2, nu=2, m=(9, 4), L=((1, 0), (1, 1)))]
     if tier != "quick":
         m += [dict(d=1, nu=5, m=(5,), L=((3,),)), dict(d=2, nu=2, m=(2, 6), L=((1, 0), (2, 3))),
               dict(d=2, nu=6, m=(4, 3), L=((3, 0), (-1, 2)))]
@@ -769,7 +771,9 @@ def tpcn_runner(np, mcmc, modes_mod, mode, M, kinds, U, nu=None):
     h = 1.0 / (2 * M)
     d = mode["d"]
     Lm = np.array(mode["L"], dtype=float)
-    ms = modes_mod.ModeStatistics(np.array([[m * h for m in mode["m"]]]), (h * h * (Lm @ Lm.T)).reshape(1, d, d), np.array([float(mode["nu"] if nu is None else nu)]))
+    # degrees of freedom handed over with an INTEGER dtype when d + nu is odd (the shape (d + nu)/2 of the mixing variable is then a half-integer)
+    dof = np.array([int(mode["nu"])]) if (nu is None and (d + int(mode["nu"])) % 2 == 1) else np.array([float(mode["nu"] if nu is None else nu)])
+    ms = modes_mod.ModeStatistics(np.array([[m * h for m in mode["m"]]]), (h * h * (Lm @ Lm.T)).reshape(1, d, d), dof)
     n = len(U)
     per = [i for i in range(d) if kinds[i] == "periodic"] or None
     ref = [i for i in range(d) if kinds[i] == "reflective"] or None
